@@ -68,7 +68,7 @@ func genDecString(t *rapid.T, label string) string {
 // genPair biases the second operand towards the first (equal magnitudes, one ulp apart).
 func genPair(t *rapid.T) (string, string) {
 	a := genDecString(t, "a")
-	switch rapid.IntRange(0, 5).Draw(t, "pairmode") {
+	switch rapid.IntRange(0, 6).Draw(t, "pairmode") {
 	case 0:
 		return a, a
 	case 1:
@@ -82,6 +82,9 @@ func genPair(t *rapid.T) (string, string) {
 			ulp := new(big.Rat).SetFrac(big.NewInt(1), ref.Pow10(dp))
 			return a, ref.RatString(new(big.Rat).Add(r, ulp))
 		}
+	case 3:
+		// small integer fractions: long periodic quotients (half-way and double-rounding traps)
+		return fmt.Sprintf("%d", rapid.IntRange(1, 2000).Draw(t, "num")), fmt.Sprintf("%d", rapid.IntRange(1, 2000).Draw(t, "den"))
 	case 2:
 		// operands whose product / quotient straddles 34 digits
 		return genDigits(t, "p", 20) + "7." + genDigits(t, "q", 17), genDigits(t, "r", 17) + "3." + genDigits(t, "s", 3)
@@ -135,7 +138,9 @@ type c19Failure struct {
 
 func (f c19Failure) Error() string { return fmt.Sprintf("a=%q b=%q: %s", f.A, f.B, f.Why) }
 
-// ulp34 is one unit in the 34th significant digit of exact.
+// ulp34 is one unit in the 34th significant digit of exact. "Correct to 34 significant
+// digits" is checked as: the error is at most HALF of that unit (the result is what the
+// exact value rounds to at 34 digits; ties may go either way).
 func ulp34(exact *big.Rat) *big.Rat {
 	if exact.Sign() == 0 {
 		return new(big.Rat)
@@ -156,6 +161,10 @@ func ulp34(exact *big.Rat) *big.Rat {
 		return new(big.Rat).SetInt(ref.Pow10(e))
 	}
 	return new(big.Rat).SetFrac(big.NewInt(1), ref.Pow10(-e))
+}
+
+func halfUlp34(exact *big.Rat) *big.Rat {
+	return new(big.Rat).Mul(ulp34(exact), big.NewRat(1, 2))
 }
 
 func refDecimalPlaces(s string) (uint32, bool) {
@@ -306,8 +315,8 @@ func checkC19(as, bs string) (nontrivial bool, err error) {
 	}
 	if z, err := a.Mul(b); err != nil {
 		return fail("Mul: %v", err)
-	} else if v, err := val(z); err != nil || new(big.Rat).Abs(new(big.Rat).Sub(v, exactMul)).Cmp(ulp34(exactMul)) >= 0 && exactMul.Sign() != 0 || exactMul.Sign() == 0 && v.Sign() != 0 {
-		return fail("Mul = %s (%v), exact %s: off by one unit in the 34th digit or more", z, err, ref.RatString(exactMul))
+	} else if v, err := val(z); err != nil || new(big.Rat).Abs(new(big.Rat).Sub(v, exactMul)).Cmp(halfUlp34(exactMul)) > 0 && exactMul.Sign() != 0 || exactMul.Sign() == 0 && v.Sign() != 0 {
+		return fail("Mul = %s (%v), exact %s: off by more than half a unit in the 34th significant digit", z, err, ref.RatString(exactMul))
 	}
 	// division
 	if rb.Sign() == 0 {
@@ -330,8 +339,8 @@ func checkC19(as, bs string) (nontrivial bool, err error) {
 		}
 		if z, err := a.Quo(b); err != nil {
 			return fail("Quo: %v", err)
-		} else if v, err := val(z); err != nil || exactQuo.Sign() != 0 && new(big.Rat).Abs(new(big.Rat).Sub(v, exactQuo)).Cmp(ulp34(exactQuo)) >= 0 || exactQuo.Sign() == 0 && v.Sign() != 0 {
-			return fail("Quo = %s (%v), exact %s: off by one unit in the 34th digit or more", z, err, ref.RatString(exactQuo))
+		} else if v, err := val(z); err != nil || exactQuo.Sign() != 0 && new(big.Rat).Abs(new(big.Rat).Sub(v, exactQuo)).Cmp(halfUlp34(exactQuo)) > 0 || exactQuo.Sign() == 0 && v.Sign() != 0 {
+			return fail("Quo = %s (%v), exact %s: off by more than half a unit in the 34th significant digit", z, err, ref.RatString(exactQuo))
 		}
 	}
 	if err := unchanged("Mul/Quo"); err != nil {
